@@ -150,6 +150,15 @@ def par_oracle_masks(pats: List[str], jobs: int = 16) -> List[Any]:
     return [x for p in parts for x in p]
 
 
+@functools.lru_cache(maxsize=200000)
+def pmatch(p: str, name: str) -> Tuple[bool, bool]:
+    """(the pattern has an inverted range, the pattern matches the name) -- memoised for the rule-list checks"""
+    toks = glob_lex(p)
+    if glob_inverted(toks):
+        return True, False
+    return False, glob_match(toks, name)
+
+
 def default_level(name: str) -> int:
     """PRIVATE (1) for a leading underscore that is not a dunder, PUBLIC (2) otherwise"""
     if name.startswith('_') and not (name.startswith('__') and name.endswith('__')):
@@ -162,15 +171,8 @@ def precedence_oracle(rules: List[List[Any]], full: str, name: str) -> Tuple[Opt
     exact = [l for l, p in rules if p == full]
     if exact:
         return exact[-1], None
-    hits = []
-    for l, p in rules:
-        toks = glob_lex(p)
-        if glob_inverted(toks):
-            hits.append((l, None))
-        elif glob_match(toks, full):
-            hits.append((l, True))
-    # the last matching pattern rule wins; a meaningless (inverted range) rule after it is simply not a match
-    real = [l for l, ok in hits if ok]
+    # the last matching pattern rule wins; a meaningless (inverted range) rule is simply not a match
+    real = [l for l, p in rules if pmatch(p, full) == (False, True)]
     return (real[-1] if real else default_level(name)), None
 
 
@@ -286,6 +288,8 @@ class Check(PropertyCheck):
         out += self.check_refrag()
         out += self.check_parse()
         out += self.check_privacy()
+        if self.tier != 'quick':
+            out += self.check_extraction()
         return out
 
     def add(self, out: List[Violation], v: Violation, limit: int = 12) -> None:
@@ -534,7 +538,7 @@ class Check(PropertyCheck):
         self.stats['system_objects'] = len(objs)
         fulls = [o[0] for o in objs]
         by = {o[0]: o for o in objs}
-        targets = ['pkg.mod.Cls._p', 'pkg.mod.Cls.__d__', 'pkg.__main__', 'pkg.mod', 'pkg.mod._v', 'pkg.sub.deep.__main__',
+        targets = ['pkg.mod.Cls._p', 'pkg.mod.Cls.__d__', 'pkg.__main__', 'pkg.pkg', 'pkg.mod._v', 'pkg.mod', 'pkg.sub.deep.__main__',
                    'pkg._priv.A', '__main__', 'pkg', 'pkg.mod.___']
         if self.tier == 'quick':
             targets = targets[:5]
@@ -552,8 +556,9 @@ class Check(PropertyCheck):
                 for n in range(0, 4):
                     for combo in itertools.product(atoms, repeat=n):
                         rules = [[l, t if k == 'exact' else p] for l, k in combo]
-                        cases.append({'rules': rules, 'queries': [['obj', t], ['obj', t], ['obj', r.choice(others)], ['obj', t]],
-                                      'enumerated': True})
+                        # the target twice (cache), then every object of the System in a random order, then the target again
+                        qs = [['obj', t], ['obj', t]] + [['obj', f] for f in r.sample(fulls, len(fulls))] + [['obj', t]]
+                        cases.append({'rules': rules, 'queries': qs, 'enumerated': True})
         self.stats['enumerated_rule_lists'] = len(cases)
         # random longer rule lists over many patterns, all objects queried with repeats, plus kind-less objects
         nrand = 150 if self.tier == 'quick' else 4000
@@ -603,12 +608,38 @@ class Check(PropertyCheck):
                 pv = privacy_violation(case, o)
                 if pv:
                     self.add(out, pv)
-                if any(p == full or (not glob_inverted(glob_lex(p)) and glob_match(glob_lex(p), full)) for _, p in c['rules']):
+                if any(p == full or pmatch(p, full) == (False, True) for _, p in c['rules']):
                     nt += 1
         self.count('distinct_nontrivial', nt)
         for c in cases[700:702] + cases[-20:-19]:
             self.sample({'rules': c['rules'], 'queries': c['queries']})
         return out
+
+    def check_extraction(self) -> List[Violation]:
+        """cross-check of extraction + OCaml driver: the same inputs through `Eval vm_compute in (Privacy.run ...)`"""
+        r = self.rng
+        inputs = []
+        for _ in range(250):
+            p = self.random_pattern()
+            if p.count('*') <= 3:
+                inputs.append(enc([2, p, r.choice(self.names_for(p))]))
+                inputs.append(enc([4, p, r.choice(self.names_for(p))]))
+        for p in self.corpus_patterns()[:60]:
+            inputs.append(enc([1, p, 'ab.', 2]))
+            inputs.append(enc([0, p]))
+        for v in r.sample(self.parse_cases(), 100):
+            inputs.append(enc([6, v]))
+        for _ in range(60):
+            rules = [[r.randrange(3), r.choice(['**', 'a.*', 'a.b', '*.b', '[z-a]', '?.?'])] for _ in range(r.randint(0, 4))]
+            qs = [[f, f.rpartition('.')[2], 1, int(f == '__main__')] for f in r.choices(['a.b', 'a', 'a._c', '__main__', 'a.__d__'], k=4)]
+            inputs.append(enc([5, rules, qs]))
+        a = self.model('qnmatch', inputs)
+        b = lib.run_model_vm('Model.Privacy', inputs)
+        self.stats['extraction_cross_checked'] = len(inputs)
+        for i, x, y in zip(inputs, a, b):
+            if dec(x) != dec(y):
+                raise RuntimeError('extraction cross-check failed on %s: ocaml %s, vm_compute %s' % (i, x, y))
+        return []
 
     # ------------------------------------------------------------------ search / classify / replay
     def search(self, broken: List[Violation]) -> List[Violation]:
